@@ -40,6 +40,48 @@ fn peel(ctx: &Ctx, two_hop: bool, base_height: u32, delta_last: u32, htlc_cltv: 
 	}
 }
 
+/// A -> B -> C payment, C never answers. Blocks are connected one at a time to all nodes. B's commitment is mined as
+/// soon as it is broadcast; B's HTLC-timeout is mined `mine_timeout_after` blocks after it is first broadcast.
+/// Returns (outCltv, inCltv, height of B's commitment broadcast, height at which B fails back upstream, height at which
+/// the HTLC-timeout confirmed).
+fn dead_downstream(mine_timeout_after: u32) -> Option<(u32, u32, Option<u32>, Option<u32>, Option<u32>)> {
+	use ldk_verif_harness::sim::*;
+	use lightning::ln::functional_test_utils::{connect_blocks, mine_transaction};
+	// legacy (non-anchor) channels: the commitment is broadcast directly, no BumpTransaction event handling needed
+	let cfg = Some(lightning::ln::functional_test_utils::test_legacy_channel_config());
+	let mut net = Net::new(3, vec![cfg.clone(), cfg.clone(), cfg]);
+	let c0 = net.open(0, 1, 1_000_000, 400_000_000);
+	let c1 = net.open(1, 2, 1_000_000, 400_000_000);
+	let _p = net.send(&[0, 1, 2], &[c0, c1], 5_000_000, 70).ok()?;
+	net.settle(6); // C now holds the HTLC (claimable) and stays silent
+	let mut in_cltv = 0; let mut out_cltv = 0;
+	for o in &net.trace { if let Obs::Msg { from, to, kind: "add", detail, .. } = o {
+		let cltv: u32 = detail.split("cltv=").nth(1)?.trim().parse().ok()?;
+		if (*from, *to) == (0, 1) { in_cltv = cltv; } if (*from, *to) == (1, 2) { out_cltv = cltv; }
+	} }
+	if in_cltv == 0 || out_cltv == 0 { return None; }
+	let mut close_h = None; let mut fail_h = None; let mut timeout_conf = None; let mut timeout_seen: Option<(u32, bitcoin::Transaction)> = None;
+	let mut mined: Vec<bitcoin::Txid> = vec![];
+	let mut seen_b = net.nodes[1].tx_broadcaster.txn_broadcasted.lock().unwrap().len();
+	for _ in 0..(in_cltv + 20) {
+		for i in 0..3 { connect_blocks(&net.nodes[i], 1); }
+		let h = net.nodes[1].best_block_info().1;
+		let txs: Vec<bitcoin::Transaction> = { let b = net.nodes[1].tx_broadcaster.txn_broadcasted.lock().unwrap(); let v = b[seen_b.min(b.len())..].to_vec(); seen_b = b.len(); v };
+		for tx in txs {
+			if mined.contains(&tx.compute_txid()) { continue; }
+			if tx.lock_time.to_consensus_u32() == out_cltv && timeout_seen.is_none() { timeout_seen = Some((h, tx)); continue; } // B's HTLC-timeout
+			if close_h.is_none() && tx.input.len() == 1 && tx.output.len() >= 2 { close_h = Some(h); mined.push(tx.compute_txid()); for i in 0..3 { mine_transaction(&net.nodes[i], &tx); } }
+		}
+		if let Some((seen_at, tx)) = &timeout_seen { if timeout_conf.is_none() && h >= seen_at + mine_timeout_after { for i in 0..3 { mine_transaction(&net.nodes[i], tx); } timeout_conf = Some(net.nodes[1].best_block_info().1); mined.push(tx.compute_txid()); } }
+		net.pump_all(); net.process_events(1); net.pump_all();
+		let h2 = net.nodes[1].best_block_info().1;
+		if fail_h.is_none() && net.trace.iter().any(|o| matches!(o, Obs::Msg { from: 1, to: 0, kind: "fail", .. })) { fail_h = Some(h2); break; }
+		if fail_h.is_none() && net.trace.iter().any(|o| matches!(o, Obs::Event { node: 1, text } if text.starts_with("HTLCHandlingFailed"))) { fail_h = Some(h2); break; }
+	}
+	std::mem::forget(net);
+	Some((out_cltv, in_cltv, close_h, fail_h, timeout_conf))
+}
+
 fn main() {
 	let args = &parse_args("c08");
 	let mut rec = Rec::new(&args.out, "c08");
@@ -113,6 +155,35 @@ fn main() {
 			rec.oracle_fail(format!("final hop accepted HTLC expiring too soon h={} cltv={}", h, htlc_cltv));
 		}
 		rec.case(&format!("peelfinal {} {} {}", h, onion_cltv, htlc_cltv), &res, &class, true);
+	}
+	// (4) end to end: a forwarded HTLC whose downstream peer goes silent. B must go on chain downstream exactly at
+	// outCltv + grace, and must fail the upstream HTLC back neither before the downstream timeout is buried under the
+	// library's bounds nor later than one grace period before the upstream expiry. Ops for the model:
+	//   e2e_close <outCltv> -> height of B's commitment broadcast ; e2e_failback <inCltv> -> height of the upstream fail-back
+	ldk_verif_harness::sim::silence_stdout();
+	let n_e2e = if args.thorough { 12 } else { 3 };
+	for k in 0..n_e2e {
+		let mine_timeout_after: u32 = match k % 3 { 0 => 200, 1 => 1, _ => 12 }; // never / at once / late
+		let r = guarded(std::panic::AssertUnwindSafe(|| dead_downstream(mine_timeout_after)));
+		match r {
+			Ok(Some((out_cltv, in_cltv, close_h, fail_h, timeout_conf_h))) => {
+				rec.case(&format!("e2e_close {}", out_cltv), &close_h.map(|h| h.to_string()).unwrap_or("none".into()), "e2e:close", true);
+				// impl-side oracle, independent of the model
+				let grace32 = grace as u32; let ard = lightning::chain::channelmonitor::ANTI_REORG_DELAY;
+				match fail_h {
+					None => rec.oracle_fail(format!("dead downstream: upstream HTLC (expiry {}) was never failed back", in_cltv)),
+					Some(fh) => {
+						if fh + grace32 > in_cltv { rec.oracle_fail(format!("dead downstream: upstream HTLC failed back at height {} — later than one grace period before its expiry {}", fh, in_cltv)); }
+						let buried = timeout_conf_h.map(|c| fh + 1 >= c + ard).unwrap_or(false);
+						let bound = out_cltv + grace32 + 2 * max_conf as u32 + ard - 1; // by then the timeout is buried under the stated bounds
+						if !buried && fh < bound { rec.oracle_fail(format!("dead downstream: upstream HTLC (expiry {}) failed back at height {} although the downstream timeout (expiry {}, HTLC-timeout confirmed at {:?}) was not buried and the stated bounds only guarantee burial by {}", in_cltv, fh, out_cltv, timeout_conf_h, bound)); }
+						if timeout_conf_h.is_none() { rec.case(&format!("e2e_failback {}", in_cltv), &fh.to_string(), "e2e:failback-unconfirmed-timeout", true); }
+					},
+				}
+			},
+			Ok(None) => rec.discarded += 1,
+			Err(p) => rec.oracle_fail(format!("dead-downstream scenario panicked: {}", p.chars().take(200).collect::<String>())),
+		}
 	}
 	rec.notes.insert("rule".into(), "boundary sweep (±window) around every comparison of check_incoming_htlc_cltv for 7 deltas, plus PRNG-drawn real onions through the public peel_payment_onion; every case is distinct by its op text".into());
 	rec.finish();
